@@ -639,6 +639,9 @@ def enum_configs(tier):
                 for pre, foreign in envs:
                     if tier == "quick" and api == "lfric" and foreign:
                         continue    # the largest spaces: thorough only
+                    if (tier == "quick" and scheme == "multiple" and pre
+                            and pre[0]["v"] != "acc"):
+                        continue    # who owns _0 is immaterial here
                     cfgs.append(({"api": api, "scheme": scheme,
                                   "runs": [spec(kern, pair[0]),
                                            spec(kern, pair[1])],
@@ -796,7 +799,7 @@ def run(ctx):
     # Schedules are tiny and failures are reported with their complete
     # effective schedule, so the quick tier does not spend time shrinking.
     ctx.hyp(prop, sampled_cases([3, 3, 3, 2]),
-            max_examples=ctx.scale(400, 5000), salt=1, shrink=not ctx.quick)
+            max_examples=ctx.scale(320, 5000), salt=1, shrink=not ctx.quick)
     if not ctx.quick:
         # second batch: nothing shared between the runs (no parse cache)
         FRESH_PARSE[0] = True
